@@ -1012,7 +1012,7 @@ class Engine:
         if isinstance(it, VList):
             return p.st.elems(it.ref), it.elem_cname
         if isinstance(it, VIter):
-            return it.seq, it.elem_cname
+            return self.consume(p, it), it.elem_cname
         if isinstance(it, VSet):
             # arbitrary duplicate-free enumeration of the set (A9)
             s = T.fresh("enum", RSeq)
@@ -1024,6 +1024,18 @@ class Engine:
             p.ghost["enums"] = tuple(p.ghost.get("enums", ())) + (s,)
             return s, it.elem_cname
         raise Unsupported(f"iteration over {type(it).__name__}")
+
+    def consume(self, p: Path, it: VIter):
+        """an arbitrary iterable argument may be a one-shot iterator (generator): the first pass yields its items, what a second
+        pass yields is unknown (nothing for a generator, the same items for a list)"""
+        done = p.ghost.get("consumed", frozenset())
+        if id(it) in done:
+            return T.fresh("second_pass", RSeq)
+        p.ghost = dict(p.ghost)
+        p.ghost["consumed"] = done | {id(it)}
+        keep = p.ghost.setdefault("consumed_keepalive", ())
+        p.ghost["consumed_keepalive"] = keep + (it,)
+        return it.seq
 
     def elem_value(self, term, cname, it=None):
         if it is not None and isinstance(it, VSeq) and it.kind == "rows":
